@@ -10,7 +10,8 @@ from .cfront import strip, text
 from .formula import Undecided, num
 
 CALLS = {"fabs": "abs", "sqrt": "sqrt", "log": "log", "exp": "exp", "pow": "pow", "floor": "floor", "isnan": "isnan",
-         "fmin": "min", "fmax": "max", "abs": "abs"}
+         "fmin": "min", "fmax": "max", "abs": "abs", "__builtin_isnan": "isnan", "__isnan": "isnan", "__isnanf": "isnan",
+         "__builtin_isinf_sign": "isinf", "__builtin_fabs": "abs", "llabs": "abs", "labs": "abs"}
 
 
 class Effect:
@@ -111,7 +112,26 @@ class CEval:
         self.npaths = 0
 
     def ex(self, e, env):
-        return to_expr(e, env, self.arrays)
+        return self.resolve(to_expr(e, env, self.arrays))
+
+    def resolve(self, e):
+        """conditional expressions whose test the oracle decides are replaced by the selected branch"""
+        if not isinstance(e, tuple) or not e or e[0] in ('x', 'sym', 'num', 'nan'):
+            return e
+        if e[0] == 'where':
+            d = self.oracle(e[1])
+            if d is True:
+                return self.resolve(e[2])
+            if d is False:
+                return self.resolve(e[3])
+            return ('where', e[1], self.resolve(e[2]), self.resolve(e[3]))
+        if e[0] == 'call':
+            return (e[0], e[1], tuple(self.resolve(a) for a in e[2])) + tuple(e[3:])
+        if e[0] == 'tuple':
+            return ('tuple', tuple(self.resolve(a) for a in e[1]))
+        if e[0] == 'cmp':
+            return ('cmp', e[1], self.resolve(e[2]), self.resolve(e[3]))
+        return (e[0],) + tuple(self.resolve(c) if isinstance(c, tuple) else c for c in e[1:])
 
     def run(self, stmts, env, conds=()):
         self._walk(list(stmts), dict(env), list(conds))
